@@ -2,7 +2,7 @@
    Property theorems only. *)
 From Coq Require Import ZArith List.
 From stdpp Require Import gmap sets.
-From NV Require Import C20_Model TA_Model TA_Proofs TA_Capacity TA_Cap2.
+From NV Require Import C20_Model TA_Model TA_Proofs TA_Capacity TA_Cap2 TA_Nonempty.
 Open Scope Z_scope.
 
 (* Capacity (proved part): for every tree passing tree_wfb2, every history and every choice such
@@ -28,6 +28,27 @@ Theorem C03_capacity_refuted :
   | Err _ => False end.
 Proof. exact capacity_refuted. Qed.
 Print Assumptions C03_capacity_refuted.
+
+(* "... so every CPU-pinned container always has a non-empty allowed CPU set" (proved part): on the same
+   guarded histories, a container of the normal CPU class that holds exclusive CPUs or a positive
+   shared portion is told a non-empty cpuset. *)
+Theorem C03_nonempty_cpuset_partial : forall t os s cid g, tree_wfb2 t = true -> run_g t (init t) os = Ok s ->
+  grants s !! cid = Some g -> g_type g = CpuNormal -> (g_pool g < length t)%nat ->
+  g_excl g <> ∅ \/ 0 < g_portion g -> told_cpus t s g <> ∅.
+Proof. exact told_nonempty. Qed.
+Print Assumptions C03_nonempty_cpuset_partial.
+
+(* ... and it is false for zero-request containers: reinstating an exclusive grant (Reserve, after a
+   configuration update) may take the last sharable CPUs of a pool -- its capacity test is not strict,
+   AllocateCPU's is -- and a BestEffort container of that pool is told an empty cpuset (known finding K10;
+   the same state was observed on the implementation). *)
+Theorem C03_nonempty_cpuset_refuted :
+  tree_wfb2 k10_tree = true /\
+  match run_g k10_tree (init k10_tree) k10_ops with
+  | Ok s => bool_decide (told_cpus k10_tree s {| g_pool := 0; g_excl := ∅; g_type := CpuNormal; g_portion := 0 |} = ∅) = true
+  | Err _ => False end.
+Proof. exact nonempty_refuted. Qed.
+Print Assumptions C03_nonempty_cpuset_refuted.
 
 (* the per-pool ledgers equal the sums of the portions of the pool's grants, for all histories *)
 Theorem C03_ledger_exact : forall t os s, run t (init t) os = Ok s ->
